@@ -1409,5 +1409,5 @@ def run(tier="quick"):
                        "termination and index arithmetic of the sift loops beyond one round"]
     for m in models[:1]:
         rep.configs.append(m.config)
-        rules(rep, m)
+        common.run_rules(rep, m, rules)
     return rep.finish()
